@@ -532,7 +532,7 @@ pub fn kcall(id: CodecId, k: usize, st: St, req: &KReq) -> Option<R<KRes>> {
         (MDna, St::U128) => arms!(kgen, MDnaC, u128, k, req, [1, 2, 15, 16, 17, 31, 32]),
         (MIupac, St::U128) => arms!(kgen, MIupacC, u128, k, req, [1, 2, 12, 13, 14, 24, 25]),
         (Degen, St::U128) => arms!(kgen, DegenC, u128, k, req, [1, 2, 63, 64, 65, 127, 128]),
-        (Tri, _) | (Sept, _) => None,
+        (Tri, _) | (Sept, _) | (Oct, _) => None,
     }
 }
 
@@ -560,7 +560,7 @@ pub fn kcall_ord(id: CodecId, k: usize, st: St, req: &KReq) -> Option<R<KRes>> {
         (Text, St::U128) => arms!(kord, TextC, u128, k, req, [1, 2, 3, 4, 5, 6, 7, 8, 9, 10, 11, 12, 13, 14, 15, 16]),
         (MDna, St::U128) => arms!(kord, MDnaC, u128, k, req, [1, 2, 15, 16, 17, 31, 32]),
         (MIupac, St::U128) => arms!(kord, MIupacC, u128, k, req, [1, 2, 12, 13, 14, 24, 25]),
-        (Iupac, _) | (Amino, _) | (Tri, _) | (Sept, _) => None,
+        (Iupac, _) | (Amino, _) | (Tri, _) | (Sept, _) | (Oct, _) => None,
         (Degen, St::U128) => arms!(kord, DegenC, u128, k, req, [1, 2, 63, 64, 65, 127, 128]),
     }
 }
@@ -577,7 +577,7 @@ pub fn kcall_usize(id: CodecId, k: usize, req: &UReq) -> Option<R<URes>> {
         Degen => arms2!(
             kusize, DegenC, k,
             [1, 2, 3, 4, 5, 6, 7, 8, 9, 10, 11, 12, 13, 14, 15, 16, 17, 18, 19, 20, 21, 22, 23, 24, 25, 26, 27, 28, 29, 30, 31, 32, 33, 34, 35, 36, 37, 38, 39, 40, 41, 42, 43, 44, 45, 46, 47, 48, 49, 50, 51, 52, 53, 54, 55, 56, 57, 58, 59, 60, 61, 62, 63, 64], (req)),
-        Tri | Sept => None,
+        Tri | Sept | Oct => None,
     }
 }
 
@@ -589,7 +589,7 @@ pub fn kcall_minmax(id: CodecId, k: usize, spec: &SeqSpec) -> Option<R<(Option<K
         MDna => arms2!(kminmax, MDnaC, k, [1, 2, 3, 4, 5, 6, 7, 8, 9, 10, 11, 12, 13, 14, 15, 16], (spec)),
         MIupac => arms2!(kminmax, MIupacC, k, [1, 2, 3, 4, 5, 6, 7, 8, 9, 10, 11, 12], (spec)),
         Degen => arms2!(kminmax, DegenC, k, [1, 2, 3, 4, 5, 6, 7, 8, 12, 16, 24, 31, 32, 33, 48, 63, 64], (spec)),
-        Iupac | Amino | Tri | Sept => None,
+        Iupac | Amino | Tri | Sept | Oct => None,
     }
 }
 
@@ -604,7 +604,7 @@ pub fn kcall_u64_from_int(id: CodecId, k: usize, i: u128, via_usize: bool) -> Op
         MDna => arms2!(ku64, MDnaC, k, [1, 2, 8, 15, 16], (i, via_usize)),
         MIupac => arms2!(ku64, MIupacC, k, [1, 2, 6, 11, 12], (i, via_usize)),
         Degen => arms2!(ku64, DegenC, k, [1, 2, 32, 63, 64], (i, via_usize)),
-        Tri | Sept => None,
+        Tri | Sept | Oct => None,
     }
 }
 
